@@ -1105,9 +1105,10 @@ package psatoken
 
 // ---------------------------------------------------------------- bounded audits of the assumed go-cose / crypto contracts and of library thread-safety
 
-//@ bounded[C02,C03] tamper : 5 pairs of ES256 tokens over the valid claims-sets: every single-bit flip, every truncation, payload / signature / protected-header splices between two tokens, arbitrary signature bytes, the other key; thorough tier: 48 ES256, 4 ES384 and 4 ES512 token pairs :: boundedTamper()
+//@ bounded[C06] alloc-audit : 221 adversarial CBOR inputs (headers of major types 2..6 declaring 2^8 .. 2^63 bytes / entries with nothing, little or a map around them; nesting depths 16 .. 65000 of arrays, maps and tags; a 64 KiB honest token) and 12 JSON inputs (nesting 100 .. 32000, 60 KB strings / names / numbers) through every decode entry point incl. the embedding-aware populate helpers of an extension profile; allocation (runtime.MemStats.TotalAlloc) <= 1 MiB + 1 KiB per input byte and 5 s per call :: boundedAllocAudit()
+//@ bounded[C02,C03] tamper : 5 pairs of ES256 tokens over the valid claims-sets: every single-bit flip, every truncation, payload / signature / protected-header splices between two tokens, arbitrary signature bytes, the other key; thorough tier: 48 ES256, 4 ES384, 4 ES512, 4 EdDSA and 2 PS256 token pairs :: boundedTamper()
 //@ bounded[C20] envelope : envelopes from an independent CBOR writer: tags 0..30 and none, array lengths 0..6, each of the four elements replaced by 8 other item types, wrapped / null / array / empty / integer payloads, trailing bytes :: boundedEnvelope()
-//@ bounded[C19,C03] histories : all operation sequences of length <= 4 over {Sign ok, Sign with failing signer, Sign with empty signature, ValidateAndSign on invalid claims, UnmarshalCOSE genuine, UnmarshalCOSE garbage} on one Evidence (1 554 sequences); thorough tier: length <= 5 (9 330 sequences) :: boundedHistories()
+//@ bounded[C19,C03] histories : all operation sequences of length <= 4 over {Sign ok, Sign with failing signer, Sign with empty signature, Sign with an unsupported algorithm and a junk signature, ValidateAndSign on invalid claims, UnmarshalCOSE genuine, UnmarshalCOSE garbage} on one Evidence (2 800 sequences); thorough tier: length <= 5 (19 607 sequences) :: boundedHistories()
 //@ bounded[C17] race-audit : 16 goroutines x 20 iterations of encode / getters / validate / decode / verify / create / sign on shared and private objects under the race detector, results compared with a sequential run :: raceAudit()
 
 // ---------------------------------------------------------------- ghost lemma functions (verif_lemmas.go, build tag verif)
